@@ -9,7 +9,7 @@ from vlib import build, LIBMP_SRCS, NLW2_SRCS
 DRV_SRCS = ["drv/main.cc", "drv/scripted_backend.cc", "drv/scripted_modelapi_connect.cc", "drv/model_mgr_std_pb.cc"]
 
 TARGETS = {
-    "h_sizes": lambda: build("h_sizes", ["src/expr.cc", "src/expr-info.cc", "src/format.cc"], "asan", harness_srcs=["h_sizes.cc"]),
+    "h_sizes": lambda: build("h_sizes", ["src/expr.cc", "src/expr-info.cc", "src/format.cc", "src/problem.cc", "src/nl-reader.cc", "src/posix.cc", "src/os.cc"], "asan", harness_srcs=["h_sizes.cc"]),
     "h_safeint": lambda: build("h_safeint", [], "asan", harness_srcs=["h_safeint.cc"]),
     "h_drv": lambda: build("h_drv", LIBMP_SRCS, "plain", harness_srcs=DRV_SRCS),
     # the same driver under ASan+UBSan (memory errors on the driver paths: names files, suffix output, ...)
